@@ -225,6 +225,7 @@ def handle (be : Backend) (b : Build) (toks : List String) : String :=
           "Fm " ++ toString r.exit ++ " " ++ bit (r.final.liveResults == 0 && r.final.resconfLive == 0)
             ++ String.join (r.files.map fun o => " ; " ++ hexOf o.stdout ++ " " ++ toString o.passed ++ " " ++ toString o.failed))
      | [] => "Fm BADOP")
+  | "G" :: _ => "G -"        -- giant inputs are judged by the check's own oracle, not by the model (a 4 GiB list is out of reach)
   | t :: _ => t ++ " BADOP"
   | [] => ""
 
